@@ -138,7 +138,20 @@ class LedgerGen:
         acct_field = None
         if r.random() < 0.35:
             # the failed transaction also wrote an account field (code / balance / nonce): reverted with the rest
-            acct_field = r.choice(["code", "code", "bal", "nonce"])
+            acct_field = r.choice(["code", "code", "bal", "nonce", "addbal", "addbal"])
+            if acct_field == "addbal":
+                # a credit by delta (AddBalance: what an EVM value transfer or a contract's GetAccount(x).AddBalance does) to an
+                # account that existed before the failed transaction
+                b = r.choice(ACCTS)
+                self.ops.append(f"addbal {b} {r.choice([1, 5, 100])}")
+                self.ops.append("revert 0")
+                self.ops += [f"bal {b}", f"bal {a}"]
+                self.ops.append("finalise")
+                self.ops.append(f"get {a} {k}")
+                self.tags.add("scripted-revert:account-addbal")
+                self.tags.add(f"scripted-revert:{first}-{second}")
+                self._recheck = (a, k)
+                return
             if acct_field == "code":
                 c = r.choice(list(CODES))
                 self.ops.append(f"setcode {a} {c} {CODES[c]}")
